@@ -9954,7 +9954,8 @@ bool SoPlexBase<R>::saveSettingsFile(const char* filename, const bool onlyChange
            _currentSettings->_intParamValues[i] << "\n";
    }
 
-   SPxOut::setScientific(file);
+   // 17 significant digits, so that loadSettingsFile() restores exactly the same floating-point values
+   SPxOut::setScientific(file, 16);
 
    for(int i = 0; i < SoPlexBase<R>::REALPARAM_COUNT; i++)
    {
